@@ -49,7 +49,7 @@ package publicip
 // Cached public IP (C18): a live entry is returned without asking any provider; a failure is not cached.
 //@ func (*PublicIPFetcher).GetIP
 //@ safety C18
-//@ requires[pre.nonnil]        p != nil
+//@ requires[pre.nonnil]        p != nil && p.client != nil && ctx != nil
 //@ requires[pre.cache.type]    cached("source_public_ip") ==> cachedAs("source_public_ip", []byte)
 //@ ensures[C18.pubip.atom]     ret1 != nil ==> ret0 == nil
 //@ ensures[C18.pubip.hit]      old(cached("source_public_ip")) ==> ncalls(GetPublicIP) == old(ncalls(GetPublicIP)) && ret1 == nil
